@@ -141,6 +141,27 @@ def run(ctx):
             r.fail("C19.boundary", fi.key + ":falls-off", "%s returns None when the closing parenthesis is missing: callers add 1 to it (TypeError) instead of reporting a syntax error" % name, fi.loc())
         else:
             r.ok("C19.boundary", fi.key, "raises the located ClassifyError when the closing parenthesis is missing")
+    # running off the end of the token list: the classifier indexes lObjects[iToken] as it advances, so a file that ends
+    # inside a construct raises IndexError somewhere in 246 classifier modules; the single call that starts
+    # classification must turn that into the ClassifyError the per-file boundary understands
+    pf = p.function("vsg.vhdlFile.vhdlFile:vhdlFile._processFile")
+    starts = [n for n in walk_function(pf.node) if isinstance(n, ast.Call) and norm(n.func).endswith("design_file.tokenize")]
+    if not starts:
+        raise AnalysisError("_processFile no longer starts classification through design_file.tokenize")
+    for c in starts:
+        good = False
+        q = getattr(c, "_parent", None)
+        while q is not None and q is not pf.node:
+            if isinstance(q, ast.Try) and any(c is x for st in q.body for x in ast.walk(st)):
+                for h in q.handlers:
+                    ht = norm(h.type) if h.type is not None else ""
+                    if "IndexError" in ht and any(isinstance(x, ast.Raise) and x.exc is not None and "ClassifyError" in norm(x.exc) for x in ast.walk(h)):
+                        good = True
+            q = getattr(q, "_parent", None)
+        if good:
+            r.ok("C19.boundary", pf.key + ":end-of-file", "IndexError while classifying (file ends inside a construct) is converted into ClassifyError")
+        else:
+            r.fail("C19.boundary", pf.key + ":end-of-file", "classification is started without converting IndexError into ClassifyError: a file that ends in the middle of a construct produces a traceback and stops the whole run instead of a syntax message for that file", pf.loc(c))
     # broad handlers in the engine
     for fi in p.functions.values():
         if fi.key not in reach:
@@ -324,6 +345,8 @@ def _unbound_in(fi):
 
 
 VARIANTS = [
+    Variant("C19", "end-of-file IndexError no longer converted", "fire",
+            [("vsg/vhdlFile/vhdlFile.py", "            try:\n                design_file.tokenize(self.lAllObjects)\n            except IndexError:\n                raise exceptions.ClassifyError(\"Error: Unexpected end of file detected while parsing file \" + str(self.filename))\n", "            design_file.tokenize(self.lAllObjects)\n")], rule="C19.boundary", key="end-of-file"),
     Variant("C19", "guard removed from open_paren_after_assignment_operator", "fire",
             [("vsg/rules/utils.py", "    iToken = get_index_of_token_in_list(assignment_operator, lTokens)\n    if iToken is None:\n        return False\n    return is_next_token_ignoring_whitespace(parser.open_parenthesis, iToken, lTokens)", "    iToken = get_index_of_token_in_list(assignment_operator, lTokens)\n    return is_next_token_ignoring_whitespace(parser.open_parenthesis, iToken, lTokens)")],
             rule="C19.none", key="open_paren_after_assignment_operator"),
